@@ -4,7 +4,7 @@
    z is the normalised crystal position, L the crystal length, a window's width parameter is its payload. *)
 From Coq Require Import Reals List.
 From SpdVerif Require Import Base.Rx Base.PolingBase Gen.Poling Model.Poling
-  Proofs.C19_base Proofs.C19_windows Proofs.C19_interp Proofs.C19_domains Proofs.C19_updates Proofs.C19_config.
+  Spec.Apodization Proofs.C19_base Proofs.C19_windows Proofs.C19_published Proofs.C19_interp Proofs.C19_domains Proofs.C19_updates Proofs.C19_config.
 Import ListNotations.
 Local Open Scope R_scope.
 
@@ -50,6 +50,20 @@ Proof. exact gaussian_defined. Qed.
 
 Theorem C19_off : forall z L, integration_constant ApOff z L = 1 /\ pp_integration_constant Off z L = 1.
 Proof. exact off_one. Qed.
+
+(* the translated formulas are the published apodization functions (Spec/Apodization.v, hand-pinned) *)
+Theorem C19_matches_published : forall a z L, 0 < a ->
+  integration_constant (ApBartlett a) z L = pub_bartlett a z /\
+  integration_constant (ApBlackman a) z L = pub_blackman a z /\
+  integration_constant (ApConnes a) z L = pub_connes a z /\
+  integration_constant (ApCosine a) z L = pub_cosine a z /\
+  integration_constant (ApHamming a) z L = pub_hamming a z /\
+  integration_constant (ApWelch a) z L = pub_welch a z.
+Proof. exact matches_published_width. Qed.
+
+Theorem C19_matches_published_gaussian : forall fwhm z L, 0 < fwhm -> 0 < L ->
+  integration_constant (ApGaussian fwhm) z L = pub_gaussian (pub_sigma_of_fwhm fwhm) (z * L / 2).
+Proof. exact matches_published_gaussian. Qed.
 
 (* ---- interpolated profile, any sample vector ---- *)
 Theorem C19_interpolate_ends : forall values L, (1 <= length values)%nat ->
@@ -207,6 +221,8 @@ Print Assumptions C19_end_values.
 Print Assumptions C19_gaussian_half.
 Print Assumptions C19_gaussian_defined.
 Print Assumptions C19_off.
+Print Assumptions C19_matches_published.
+Print Assumptions C19_matches_published_gaussian.
 Print Assumptions C19_interpolate_ends.
 Print Assumptions C19_interpolate_linear.
 Print Assumptions C19_interpolate_positions.
